@@ -1,0 +1,101 @@
+//! Observation hooks for external runtime monitors.
+//!
+//! This module only exists when the crate is compiled with
+//! `RUSTFLAGS="--cfg lexpr_verif"`. Nothing in here changes the behaviour of
+//! the library: the hooks count, record, and panic with a recognisable
+//! payload (prefix `lexpr_verif:`) when an internal invariant is observed to
+//! be broken.
+
+use std::cell::Cell;
+
+thread_local! {
+    static FUEL_USED: Cell<u64> = Cell::new(0);
+    static FUEL_LIMIT: Cell<u64> = Cell::new(u64::MAX);
+    static DEPTH_CUR: Cell<u32> = Cell::new(0);
+    static DEPTH_MAX: Cell<u32> = Cell::new(0);
+    static UTF8_CHECKS: Cell<u64> = Cell::new(0);
+}
+
+/// Asserts that `bytes` is well-formed UTF-8; called immediately before each
+/// unchecked conversion to `str`.
+#[inline]
+pub fn check_utf8(site: &'static str, bytes: &[u8]) {
+    UTF8_CHECKS.with(|c| c.set(c.get() + 1));
+    if std::str::from_utf8(bytes).is_err() {
+        panic!("lexpr_verif:utf8:{}", site);
+    }
+}
+
+/// Number of `check_utf8` calls made on this thread.
+pub fn utf8_checks() -> u64 {
+    UTF8_CHECKS.with(|c| c.get())
+}
+
+/// Counts one logical step of the parser's input scanning loops.
+#[inline]
+pub fn tick() {
+    let used = FUEL_USED.with(|c| {
+        let n = c.get() + 1;
+        c.set(n);
+        n
+    });
+    if used > FUEL_LIMIT.with(|c| c.get()) {
+        // Disarm, so that unwinding code which ticks does not panic again.
+        FUEL_LIMIT.with(|c| c.set(u64::MAX));
+        panic!("lexpr_verif:fuel");
+    }
+}
+
+/// Resets the step counter and arms it with `limit`.
+pub fn set_fuel(limit: u64) {
+    FUEL_USED.with(|c| c.set(0));
+    FUEL_LIMIT.with(|c| c.set(limit));
+}
+
+/// Steps counted since the last `set_fuel`.
+pub fn fuel_used() -> u64 {
+    FUEL_USED.with(|c| c.get())
+}
+
+/// Tracks the recursion depth of the value/datum parsing functions.
+pub struct DepthGuard(());
+
+impl DepthGuard {
+    /// Enters one recursion level.
+    #[inline]
+    pub fn enter() -> Self {
+        DEPTH_CUR.with(|c| {
+            let n = c.get() + 1;
+            c.set(n);
+            DEPTH_MAX.with(|m| {
+                if n > m.get() {
+                    m.set(n)
+                }
+            });
+        });
+        DepthGuard(())
+    }
+}
+
+impl Drop for DepthGuard {
+    #[inline]
+    fn drop(&mut self) {
+        DEPTH_CUR.with(|c| c.set(c.get().saturating_sub(1)));
+    }
+}
+
+/// Resets the depth gauge.
+pub fn reset_depth() {
+    DEPTH_CUR.with(|c| c.set(0));
+    DEPTH_MAX.with(|c| c.set(0));
+}
+
+/// Current recursion depth (0 outside any parse call).
+pub fn depth_current() -> u32 {
+    DEPTH_CUR.with(|c| c.get())
+}
+
+/// Maximum recursion depth seen since the last `reset_depth`.
+pub fn depth_max() -> u32 {
+    DEPTH_MAX.with(|c| c.get())
+}
